@@ -250,7 +250,33 @@ func runC05(r *Run) {
 				okM := strings.HasPrefix(msg, "@tmconsensus."+h.kind+"SignBytes(lit:tmconsensus.VoteTarget{Height:p2.Height,Round:p2.Round,BlockHash:rk(p2.Proofs)}")
 				r.Check(okK && okM, "C05.1", con, w.InstrPos(c), "future "+h.kind+" proof over "+truncate(msg, 120)+" with keys "+truncate(keys.String(), 160))
 			}
+			// when the kernel knows the round's validator set (a later round of the voting height) the
+			// sender must not be able to choose the keys: the store is consulted for the hash named in
+			// the message only when the kernel supplied no keys
+			loads := a.CallsTo("tmmirror.pubKeyLoader.LoadPubKeys", "tmstore.ValidatorStore.LoadPubKeys")
+			for i, c := range loads {
+				r.RequireGuards(a, "C05.1", fmt.Sprintf("%s#stored-keys%d", name, i+1), c,
+					G{Name: "kernel-has-no-keys", Pattern: "(@len(p3.VRV.RoundView.ValidatorSet.PubKeys) == 0)", Holds: true})
+			}
+			if len(loads) == 0 {
+				r.Pass("C05.1", name+"#stored-keys", w.Pos(h.fn.Pos()), "keys are never taken from the store")
+			}
 			full := a.CallsTo("tmconsensus.SparseSignatureCollection.ToFull" + h.kind + "ProofMap")
+			for i, c := range full {
+				keys := a.sh.Of(CallArg(c, 3))
+				alts := []*Shape{keys}
+				if keys.K == "phi" {
+					alts = keys.A
+				}
+				okK := true
+				for _, alt := range alts {
+					s := alt.String()
+					if !(s == "p3.VRV.RoundView.ValidatorSet.PubKeys" || strings.HasPrefix(s, "@@tmmirror.pubKeyLoader.LoadPubKeys(p0.vs,p1,p2.PubKeyHash)#0")) {
+						okK = false
+					}
+				}
+				r.Check(okK, "C05.1", fmt.Sprintf("%s#stored-votes-keys%d", name, i+1), w.InstrPos(c), "stored future votes are re-verified with the same key source: "+truncate(keys.String(), 160))
+			}
 			wrong := a.CallsTo("tmconsensus.SparseSignatureCollection.ToFull" + other + "ProofMap")
 			r.Check(len(full) == 1 && len(wrong) == 0, "C05.1", name+"#stored", w.Pos(h.fn.Pos()), "stored votes are re-verified as "+h.kind+"s")
 		}
